@@ -31,6 +31,8 @@ def gen_histories(d, n, hlen, steps, seed, quick):
             elif o[0] == 2 and o[1] in rects:
                 q = rects[o[1]]
                 rects[o[1]] = [q[0] + o[2], q[1] + o[3], q[2] + o[2], q[3] + o[3]]
+            elif o[0] == 7 and o[1] in rects:
+                rects[o[1]] = list(o[2:6])
             elif o[0] == 3:
                 rects.pop(o[1], None)
             rs = list(rects.values())
@@ -49,10 +51,10 @@ def gen_histories(d, n, hlen, steps, seed, quick):
 def trace_lines(h, res):
     lines = [{'e': 'Reset'}]
     stepat = {s['op']: s for s in res['steps']}
-    names = {1: 'Add', 2: 'Move', 3: 'Delete', 4: 'End', 5: 'Process', 6: 'SetTxn'}
+    names = {1: 'Add', 2: 'Move', 3: 'Delete', 4: 'End', 5: 'Process', 6: 'SetTxn', 7: 'Resize'}
     for i, o in enumerate(h, 1):
         ln = {'e': names[o[0]]}
-        if o[0] == 1:
+        if o[0] in (1, 7):
             ln.update(s=o[1], r=o[2:6])
         elif o[0] == 2:
             ln.update(s=o[1], d=o[2:4])
@@ -161,7 +163,7 @@ def main(tier):
                          {'ops': hists[hi], 'mode': x['mode'], 'P': x['P'], 'after_op': op, 'conn': ci + 1, 'incremental': x['iraw'], 'fresh': x['fraw']})
     ev.cov['evaluations'] = len(recs)
     ev.cov['distinct_nontrivial'] = sum(1 for x in recs if len(x['iraw']) > 2)
-    ev.cov['rule'] = ('histories = behaviours of RouterApiMC (3 shapes from a rectangle catalogue, 2 connectors, add/move/delete/move-endpoint/process/setTransactionUse, '
+    ev.cov['rule'] = ('histories = behaviours of RouterApiMC (3 shapes from a rectangle catalogue, 2 connectors, add/move/resize (absolute move)/delete/move-endpoint/process/setTransactionUse, '
                       'documented preconditions as enabling conditions) sampled by TLC simulation; records = (processing point, connector); non-trivial = incremental route with a bend')
     ev.sample({'history_ops': hists[0], 'first_step': res['hists'][0]['steps'][:1]})
     ev.assumptions = ['routes compared by cost intervals at 2^-11 (exact for orthogonal routes)', 'rectangular shapes only; PartialFeedback/RubberBand/clusters not generated']
